@@ -313,8 +313,25 @@ class G:
             out += [self.S(self.rng.choice(["<", "<=", "=", "in", "is-not", "not-in", "!=", "x"])), self.form(d)]
         return out
 
+    def stmt_valued(self, d):
+        """a form whose Result carries temp_variables (compile_assign renames instead of assigning)"""
+        r = self.rng
+        return r.choice([
+            lambda: self.E(self.S("try"), self.atom(), self.E(self.S("except"), self.L(), self.atom())),
+            lambda: self.E(self.S("match"), self.plainsym(), self.m.Integer(1), self.atom()),
+            lambda: self.E(self.S("defn"), self.plainsym(), self.L(), self.atom()),
+            lambda: self.E(self.S("if"), self.plainsym(), self.E(self.S("do"), self.E(self.S("setv"), self.plainsym(), self.atom()), self.atom()), self.atom()),
+            lambda: self.E(self.S("and"), self.plainsym(), self.E(self.S("do"), self.E(self.S("setv"), self.plainsym(), self.atom()), self.atom())),
+        ])()
+
+    def const_named(self):
+        return self.S(self.rng.choice(["None", "True", "False", "\uff2eone"]))
+
     def h_setv(self, d, head):
         r = self.rng
+        if r.random() < 0.08:
+            # a constant-named target with a statement-valued right-hand side
+            return [self.const_named(), self.stmt_valued(d)]
         out = []
         for _ in range(r.randint(0, 2)):
             k = r.random()
@@ -325,6 +342,8 @@ class G:
         return out
 
     def h_setx(self, d, head):
+        if self.rng.random() < 0.1:
+            return [self.const_named(), self.stmt_valued(d)]
         return [self.plainsym(), self.form(d)]
 
     def h_let(self, d, head):
